@@ -142,6 +142,9 @@ class _CannotInline(Exception):
     pass
 
 
+_DONE_COUNTER = [0]
+
+
 def _convert_returns(stmts: List[ast.stmt], make_result) -> List[ast.stmt]:
     """Rewrite a body so that `return v` becomes `make_result(v)` statements and control falls out
     at the end (guard clauses become if/else).  Raises _CannotInline for returns inside loops/try."""
@@ -188,7 +191,35 @@ def _convert_returns(stmts: List[ast.stmt], make_result) -> List[ast.stmt]:
                 raise _CannotInline("return inside try/finally followed by more statements")
             body_has, body_all = _has_return(s.body), _always_returns(s.body)
             if rest and body_has and not body_all:
-                raise _CannotInline("return inside a try body that also falls through")
+                # some paths through the try body return, others fall out of it: remember which in a flag
+                #     _sv_doneN = False
+                #     try: <body; each `return v` -> result = v; _sv_doneN = True, guard clauses -> if/else>
+                #     except ...: <same>
+                #     if not _sv_doneN: <what followed the try>
+                _DONE_COUNTER[0] += 1
+                dn = f"_sv_done{_DONE_COUNTER[0]}"
+
+                def mk2(v, at, dn=dn):
+                    a = ast.Assign(targets=[ast.Name(id=dn, ctx=ast.Store())], value=ast.Constant(value=True), type_comment=None)
+                    ast.copy_location(a, at)
+                    return make_result(v, at) + [a]
+
+                init = ast.Assign(targets=[ast.Name(id=dn, ctx=ast.Store())], value=ast.Constant(value=False), type_comment=None)
+                ast.copy_location(init, s)
+                new = copy.copy(s)
+                new.body = _convert_returns(s.body, mk2)
+                new.handlers = []
+                for h in s.handlers:
+                    h2 = copy.copy(h)
+                    h2.body = _convert_returns(list(h.body), mk2) or [ast.Pass()]
+                    new.handlers.append(h2)
+                new.orelse = _convert_returns(list(s.orelse), mk2) if s.orelse else []
+                tail_if = ast.If(test=ast.UnaryOp(op=ast.Not(), operand=ast.Name(id=dn, ctx=ast.Load())), body=_convert_returns(list(rest), make_result) or [ast.Pass()], orelse=[])
+                ast.copy_location(tail_if, s)
+                out += [init, new, tail_if]
+                for x in (init, new, tail_if):
+                    ast.fix_missing_locations(x)
+                return out
             new = copy.copy(s)
             new.body = _convert_returns(s.body, make_result)
             new.handlers = []
@@ -256,9 +287,14 @@ def _assigned_names(fn: ast.FunctionDef) -> Set[str]:
 def _bind(call: ast.Call, info: _Info, is_method_call: bool) -> Tuple[Dict[str, ast.expr], List[ast.stmt]]:
     fn = info.node
     a = fn.args
-    if a.vararg or a.kwarg or a.posonlyargs and False:
+    # **kwargs handed through unchanged (`helper(a, b, **kwargs)` into `def helper(a, b, **kwargs)`) is a rename
+    star_kw = [k for k in call.keywords if k.arg is None]
+    passthrough = None
+    if a.kwarg is not None and len(star_kw) == 1 and isinstance(star_kw[0].value, ast.Name) and not a.vararg:
+        passthrough = (a.kwarg.arg, star_kw[0].value)
+    elif a.vararg or a.kwarg:
         raise _CannotInline("*args/**kwargs")
-    if any(isinstance(x, ast.Starred) for x in call.args) or any(k.arg is None for k in call.keywords):
+    if any(isinstance(x, ast.Starred) for x in call.args) or (star_kw and passthrough is None):
         raise _CannotInline("star arguments at the call site")
     params = [p.arg for p in a.posonlyargs + a.args]
     defaults: Dict[str, ast.expr] = {}
@@ -281,6 +317,8 @@ def _bind(call: ast.Call, info: _Info, is_method_call: bool) -> Tuple[Dict[str, 
         raise _CannotInline("too many positional arguments")
     allp = set(params) | {p.arg for p in a.kwonlyargs}
     for k in call.keywords:
+        if k.arg is None:
+            continue
         if k.arg not in allp:
             raise _CannotInline(f"unknown keyword {k.arg}")
         bound[k.arg] = k.value
@@ -293,6 +331,10 @@ def _bind(call: ast.Call, info: _Info, is_method_call: bool) -> Tuple[Dict[str, 
     reassigned = _assigned_names(fn)
     mapping: Dict[str, ast.expr] = {}
     pre: List[ast.stmt] = []
+    if passthrough is not None:
+        if passthrough[0] in reassigned:
+            raise _CannotInline("**kwargs reassigned in the helper")
+        mapping[passthrough[0]] = passthrough[1]
     for p, v in bound.items():
         if _simple(v) and p not in reassigned:
             mapping[p] = v
